@@ -683,6 +683,9 @@ func LogOut(userID interface{}) error {
 		if err != nil {
 			return err
 		}
+		if session == nil {
+			continue // This session does not exist anymore.
+		}
 		session.Lock()
 		session.user = nil
 		session.Unlock()
@@ -719,6 +722,9 @@ func RefreshUser(user User) error {
 		session, err := sessions.Get(sessionID)
 		if err != nil {
 			return err
+		}
+		if session == nil {
+			continue // This session does not exist anymore.
 		}
 		session.Lock()
 		session.user = user
